@@ -147,6 +147,8 @@ def violations(alg, op):
     if alg in rjwe.ECDH_1PU and op == "encrypt":
         for sspec in (("EC", "P-384"), ("EC", "secp256k1"), ("OKP", "X25519"), ("OKP", "Ed25519"), ("RSA", 2048), ("oct", 32)):
             yield ("sender-curve", f"{sspec[0]}:{sspec[1]}", good, {"_sender": list(sspec)}, True)
+        # the sender key is a key of the JWE operation too: declared for signatures it is unsuitable
+        yield ("sender-use", "sig", good, {"_sender_use": "sig"}, True)
     # --- private material
     if op in ("sign", "decrypt") and kty != "oct":
         yield ("private", "public-key", good, None, False)
@@ -295,6 +297,9 @@ def run_cell(cell) -> dict:
     bad_sender = None
     if cell["clause"] == "sender-curve":
         bad_sender = jkey(make_key(tuple(cell["params"]["_sender"]), seed + 2), "dict", True)
+        cell = dict(cell, params=None)
+    elif cell["clause"] == "sender-use":
+        bad_sender = jkey(sender_ref, "dict", True, {"use": cell["params"]["_sender_use"]})
         cell = dict(cell, params=None)
     sender_priv = jkey(sender_ref, "dict", True) if sender_ref else None
     sender_pub = jkey(rk.public_of(sender_ref), "dict", False) if sender_ref else None
